@@ -206,26 +206,30 @@ def run(ctx: Ctx) -> None:
                                           tu["bytes_"], tu["mtimes"], fv.ALL_CLS, 5))
         fv.cleanup_root(root)
     mark("record_traces")
-    # negative controls: flip one is_valid answer; give one recorded hash the token of another
-    bad1 = copy.deepcopy(next(t for t in traces if any(s["obs"]["objs"] for s in t["steps"][3:])))
-    k1 = next(i for i, s in enumerate(bad1["steps"]) if i >= 3 and s["obs"]["objs"])
-    o = bad1["steps"][k1]["obs"]["objs"][0]
-    o["v"] = {"T": "F", "F": "T", "R": "T"}[o["v"]]
-    bad2 = copy.deepcopy(next(t for t in traces if any(
-        s["obs"]["objs"] and s["obs"]["objs"][0]["h"] not in (0, s["obs"]["objs"][0]["f"]) for s in t["steps"])))
-    k2 = next(i for i, s in enumerate(bad2["steps"])
-              if s["obs"]["objs"] and s["obs"]["objs"][0]["h"] not in (0, s["obs"]["objs"][0]["f"]))
-    bad2["steps"][k2]["obs"]["objs"][0]["h"] = bad2["steps"][k2]["obs"]["objs"][0]["f"]  # stale passed off as fresh
-    allt = traces + [bad1, bad2]
+    # negative controls: flip one is_valid answer; pass a stale recorded hash off as the fresh one
+    allt = list(traces)
+    ctl1, ctl2 = [], []
+    for tid, t in enumerate(traces, 1):
+        k1 = next((i for i, s in enumerate(t["steps"]) if i >= 3 and s["obs"]["objs"]), None)
+        if k1 is not None and len(ctl1) < 3:
+            bad = copy.deepcopy(t)
+            o = bad["steps"][k1]["obs"]["objs"][0]
+            o["v"] = {"T": "F", "F": "T", "R": "T"}[o["v"]]
+            allt.append(bad)
+            ctl1.append((tid, len(allt), (0, k1 + 1)))
+        k2 = next((i for i, s in enumerate(t["steps"])
+                   if s["obs"]["objs"] and s["obs"]["objs"][0]["h"] not in (0, s["obs"]["objs"][0]["f"])
+                   and s["obs"]["objs"][0]["f"] != 0), None)
+        if k2 is not None and len(ctl2) < 3:
+            bad = copy.deepcopy(t)
+            bad["steps"][k2]["obs"]["objs"][0]["h"] = bad["steps"][k2]["obs"]["objs"][0]["f"]
+            allt.append(bad)
+            ctl2.append((tid, len(allt), (0, k2 + 1)))
     verdicts, tres = fv.validate_traces(ctx, allt, "ops", **tu, max_objs=5, **flags, invariants=UNLESS,
                                         properties=["TContentBytesOnly"])
     mark("trace_tlc")
     ctx.note("phase_seconds", phases)
     ctx.require(len(verdicts) == len(allt), f"verdicts {len(verdicts)} != traces {len(allt)}")
-    ctx.negative_control(verdicts[len(traces) + 1] == (0, k1 + 1),
-                         "a flipped is_valid answer in a recorded execution must be rejected at that step")
-    ctx.negative_control(verdicts[len(traces) + 2] == (0, k2 + 1),
-                         "a stale recorded hash passed off as the fresh one must be rejected at that step")
     nontriv = 0
     for tid in range(1, len(traces) + 1):
         code, pos = verdicts[tid]
@@ -249,6 +253,10 @@ def run(ctx: Ctx) -> None:
         rep.report(f"invariant {tres.violated} violated on a recorded execution", {"out": tres.out[-3000:]}, None)
     ctx.note("recorded_traces", {"n": len(traces), "nontrivial": nontriv})
     ctx.sample({"source": "recorded-trace", "ops": [s["op"] for s in traces[0]["steps"]][:8]})
+    fv.judge_controls(ctx, verdicts, ctl1,
+                      "a flipped is_valid answer in a recorded execution must be rejected at that step")
+    fv.judge_controls(ctx, verdicts, ctl2,
+                      "a stale recorded hash passed off as the fresh one must be rejected at that step")
     ctx.note("keyed_occurrences", dict(rep.keyed))
 
 
